@@ -51,8 +51,18 @@ void reader_side(sim::RunCtx& ctx) {
         SIM_CHECK((int)carquet_schema_node_physical_type(n) == f.n->type, "schema.type", "element %zu type %d, file says %d", i, (int)carquet_schema_node_physical_type(n), f.n->type);
         if (f.n->type == T_FLBA) SIM_CHECK(carquet_schema_node_type_length(n) == f.n->tlen, "schema.type_length", "element %zu type_length %d, file says %d", i, carquet_schema_node_type_length(n), f.n->tlen);
         const carquet_logical_type_t* lt = carquet_schema_node_logical_type(n);
-        if (f.n->logical == 1 && f.n->type == T_BA) SIM_CHECK(lt && lt->id == CARQUET_LOGICAL_STRING, "schema.logical_type", "element %zu: STRING logical type not reported", i);
-        else SIM_CHECK(lt == nullptr, "schema.logical_type", "element %zu: logical type reported but the file has none", i);
+        if (f.n->logical) {
+            // LogicalType union field id (parquet.thrift) -> the id the public header gives that type
+            static const int ID[16] = {-1, CARQUET_LOGICAL_STRING, CARQUET_LOGICAL_MAP, CARQUET_LOGICAL_LIST, CARQUET_LOGICAL_ENUM, CARQUET_LOGICAL_DECIMAL, CARQUET_LOGICAL_DATE, CARQUET_LOGICAL_TIME,
+                                       CARQUET_LOGICAL_TIMESTAMP, -1, CARQUET_LOGICAL_INTEGER, CARQUET_LOGICAL_NULL, CARQUET_LOGICAL_JSON, CARQUET_LOGICAL_BSON, CARQUET_LOGICAL_UUID, CARQUET_LOGICAL_FLOAT16};
+            SIM_CHECK(lt != nullptr, "schema.logical_type", "element %zu ('%s'): the file annotates it with LogicalType field %d but no logical type is reported", i, f.n->name.c_str(), f.n->logical);
+            SIM_CHECK((int)lt->id == ID[f.n->logical], "schema.logical_type", "element %zu ('%s'): LogicalType field %d in the file, reported id %d (expected %d)", i, f.n->name.c_str(), f.n->logical, (int)lt->id, ID[f.n->logical]);
+            if (f.n->logical == 5) SIM_CHECK(lt->params.decimal.scale == f.n->lp1 && lt->params.decimal.precision == f.n->lp2, "schema.logical_type_params", "element %zu: DECIMAL(scale %d, precision %d) reported as scale %d precision %d", i, f.n->lp1, f.n->lp2, lt->params.decimal.scale, lt->params.decimal.precision);
+            if (f.n->logical == 10) SIM_CHECK(lt->params.integer.bit_width == f.n->lp1 && (int)lt->params.integer.is_signed == f.n->lp2, "schema.logical_type_params", "element %zu: INTEGER(%d, signed=%d) reported as (%d, %d)", i, f.n->lp1, f.n->lp2, (int)lt->params.integer.bit_width, (int)lt->params.integer.is_signed);
+            if (f.n->logical == 7) SIM_CHECK((int)lt->params.time.unit == f.n->lp2 - 1 && (int)lt->params.time.is_adjusted_to_utc == f.n->lp1, "schema.logical_type_params", "element %zu: TIME(utc=%d, unit %d) reported as (utc=%d, unit %d)", i, f.n->lp1, f.n->lp2 - 1, (int)lt->params.time.is_adjusted_to_utc, (int)lt->params.time.unit);
+            if (f.n->logical == 8) SIM_CHECK((int)lt->params.timestamp.unit == f.n->lp2 - 1 && (int)lt->params.timestamp.is_adjusted_to_utc == f.n->lp1, "schema.logical_type_params", "element %zu: TIMESTAMP(utc=%d, unit %d) reported as (utc=%d, unit %d)", i, f.n->lp1, f.n->lp2 - 1, (int)lt->params.timestamp.is_adjusted_to_utc, (int)lt->params.timestamp.unit);
+            SIM_COUNT("probe.logical_type_checked");
+        } else SIM_CHECK(lt == nullptr, "schema.logical_type", "element %zu: logical type reported but the file has none", i);
         // maximum levels as the public accessors state them
         int md = carquet_schema_node_max_def_level(n), mr = carquet_schema_node_max_rep_level(n);
         SIM_CHECK(md == f.def && mr == f.rep, "schema.node_max_levels", "leaf '%s' (element %zu, depth %zu): node_max_def_level=%d node_max_rep_level=%d, path has %d optional/repeated and %d repeated nodes", f.n->name.c_str(), i, f.path.size(), md, mr, f.def, f.rep);
@@ -152,7 +162,7 @@ namespace sim {
 void register_c17() {
     Property p;
     p.id = "C17"; p.level = "exploration";
-    p.rule = "reader-side run: the peer writer emits a file whose schema is a seeded ordered tree (depth <= 6, <= 60 nodes, all REQUIRED/OPTIONAL/REPEATED labelings, 8 physical types) with data shredded under the true levels; num_columns, depth-first leaf order, every element accessor, find_column, the node max-level accessors and - through the column reader - the levels actually used are compared with the textbook definition; builder-side run (1 in 6): a seeded history of 0-400 add_column/add_group calls with accessors checked after every step under a realloc-always-moves allocator, then the schema is written and read back; one evaluation = one tree or one builder step; non-trivial = tree has more than one field; distinct = hash of the labelled tree shape";
+    p.rule = "reader-side run: the peer writer emits a file whose schema is a seeded ordered tree (depth <= 6, <= 60 nodes, all REQUIRED/OPTIONAL/REPEATED labelings, 8 physical types, a third of the leaves annotated with a LogicalType that fits the physical type - STRING, ENUM, JSON, BSON, UUID, FLOAT16, DATE, TIME, TIMESTAMP, INTEGER, DECIMAL with parameters -, the root sometimes stating a repetition_type as Arrow C++ does) with data shredded under the true levels; num_columns, depth-first leaf order, every element accessor (incl. logical type id and parameters against the parquet.thrift field ids), find_column, the node max-level accessors and - through the column reader - the levels actually used are compared with the textbook definition; builder-side run (1 in 6): a seeded history of 0-400 add_column/add_group calls with accessors checked after every step under a realloc-always-moves allocator, then the schema is written and read back; one evaluation = one tree or one builder step; non-trivial = tree has more than one field; distinct = hash of the labelled tree shape";
     p.quick_runs = 25000; p.thorough_runs = 1200000;
     p.run = run_c17;
     p.assumptions = {"leaf names are unique in generated trees so lookup by leaf name is unambiguous; a dotted path may return -1 (not supported) but never a wrong index",
